@@ -1,6 +1,6 @@
 From Coq Require Import List NArith.
-From QV Require CQueues.Swsr CQueues.Lfq CQueues.Hazard.
+From QV Require CQueues.Swsr CQueues.Lfq CQueues.Hazard CQueues.Dq.
 Require Extraction.
 Require Import ExtrOcamlBasic.
 Extraction Language OCaml.
-Extraction "../ocaml/gen/c15_model.ml" Swsr.create_size Swsr.init Swsr.run_to_sp Swsr.contents Swsr.enq_seq Swsr.deq_seq Lfq.linit Lfq.lrun_to_sp Lfq.lcontents Lfq.tail_pos Hazard.void_cmp Hazard.binary_search Hazard.scan Hazard.collect.
+Extraction "../ocaml/gen/c15_model.ml" Swsr.create_size Swsr.init Swsr.run_to_sp Swsr.contents Swsr.enq_seq Swsr.deq_seq Lfq.linit Lfq.lrun_to_sp Lfq.lcontents Lfq.tail_pos Hazard.void_cmp Hazard.binary_search Hazard.scan Hazard.collect Dq.seq_deq_ok.
